@@ -163,12 +163,14 @@ PROPS = {
         "rule": "grammar-directed record lists (0..3 MODEL blocks, 1..4 chain runs with returning and blank chain ids and TER, negative / inserted / "
                 "wrapping residue numbers, lower-case names, insertion codes and alternate locations, none / partial / full alternate locations, hetero "
                 "atoms, charges, present and absent element columns, ANISOU, atom serials wrapping past 99999, optional HEADER / REMARK / CRYST1 / ORIGX / "
-                "SCALE / MTRIX) rendered with arbitrary justification inside every field, read at the three levels: the whole result (metadata, hierarchy, "
+                "SCALE / MTRIX; in files without wrapped numbers and blank chain ids DBREF / SEQADV / MODRES records about the chains and residues of the "
+                "first model, names and insertion codes in the case of the coordinate records, in upper or in lower case) rendered with arbitrary justification inside every field, read at the three levels: the whole result (metadata, hierarchy, "
                 "all atom fields, database references, bonds, diagnostics with level / short description / line) compared with the reader model, and the "
                 "structure and metadata compared with the record-level specification; three single-field corruptions (blank, garbage, truncation of serial, "
                 "residue number, x, y, z, occupancy, B factor) per text at two levels: never accepted.  non-trivial = text with at least two atoms; "
                 "distinct = distinct case line",
-        "assumptions": ["input is ASCII (bytes = characters); SEQRES / DBREF / SEQADV / MODRES / SSBOND are covered by the reader-model correspondence in C05's malformed stream, not by the record specification",
+        "assumptions": ["input is ASCII (bytes = characters); SEQRES / SSBOND are covered by the reader-model correspondence in C05's malformed stream and by the C03 round trip, not by the record specification",
+                        "DBREF / SEQADV / MODRES annotate the first model that has the named chain (adopted: the models of a file describe one molecule, the readers annotate the first); one DBREF record per chain, SEQADV records after the DBREF records, MODRES records for residues without alternate locations (which of several conformers of one name is the modified one is not fixed by the property), no annotation of chains with blank identifiers or wrapped residue numbers",
                         
                         "a residue key that comes back later in the chain always carries the same residue name: a residue holding conformers of several names together with blank alternate locations is not generated (which blank conformer is shared out is not fixed by the property; the specification shares out a single one)",
                         "a truncated atom line keeps at least 7 characters (a bare 'ATOM  ' is not a record for the reader and is skipped without a diagnostic)",
